@@ -29,7 +29,7 @@ THEOREMS = ["C39_greedy_is_collapsed_argmax", "C39_greedy_loop_is_collapse", "C3
             "C39_beam_step_keeps_prefixes_distinct", "C39_beam_prefixes_distinct", "C39_beam_scores_nonzero",
             "C39_beam_score_le_exact", "C39_beam_exact_when_unpruned", "C39_beam_complete_when_unpruned",
             "C39_exact_is_alignment_sum", "C39_forward_recursion_is_exact",
-            "C39_beam_prefixes_distinct_refuted", "C39_oracle_greedy_sound", "C39_oracle_beam_sound", "C39_nonvacuous"]
+            "C39_beam_prefixes_distinct_refuted", "C39_oracle_greedy_sound", "C39_oracle_beam_sound", "C39_alpha_dp_is_alpha", "C39_nonvacuous"]
 
 
 def classify(c):
@@ -41,6 +41,9 @@ def main(ctx):
                 "plus a structured family of 600 (quick) / 6000 (thorough) narrow-beam inputs (T 4..6, L 3..4, beam 2..4, weights {1,3,13,30}/128) "
                 "selected by an integer re-run of the search for having a prune-then-recreate history (a prefix dropped from the beam and "
                 "re-created later while its extension survived, so the merge map joins states of different lineage), "
+                "plus a deep family (32 / 400 inputs with T in {8,16,32,64}, L 2..4, every entry k*2^-e, e in 20..40, beams 1..8, reference = "
+                "proved forward recursion instead of brute force when L^T > 4096; and 16 / 200 short inputs T 4..6 with entries 2^-35..2^-40, beam 25) "
+                "whose log-probabilities reach -100 .. -1800, "
                 "plus seeded random matrices T<=5, L<=4 with dyadic probabilities (uniform, one-hot, tied peaks, dead rows, small palettes, random "
                 "splits with zeros), beam 1..25, n-best 1..25; non-trivial = at least one frame; distinct = distinct (matrix, beam, n-best)")
     ctx.trusted += ["modelled, not verified: std HashMap (merge map: last insert wins), Vec::sort_by (stable) + total_cmp, Iterator::max_by "
@@ -52,8 +55,16 @@ def main(ctx):
     failed = ctx.prove(GROUP, "Props_C39", THEOREMS)
     bindir = ctx.harness(GROUP, profile="release", bins=["c39"])
     cases = ctx.gen_exec(bindir, "c39", ctx.n(2000, 15000), inputs=ctx.replay_inputs())
-    ctx.correspond("CtcDecoder", GROUP, REQ, cases, classify=classify, show="show", shard=250,
+    # the long ("deep") inputs carry numbers of thousands of bits: evaluate them in small shards so that
+    # they spread over the cores instead of forming one slow shard
+    deep = [c for c in cases if "-deep-" in c["tag"]]
+    rest = [c for c in cases if "-deep-" not in c["tag"]]
+    ctx.correspond("CtcDecoder", GROUP, REQ, rest, classify=classify, show="show", shard=250,
                    fn_name="Ctc.ModelCtc.{greedy_steps,decode_beam_nbest}")
+    if deep:
+        ctx.correspond("CtcDecoder-deep", GROUP, REQ, deep, classify=classify, show="show", shard=ctx.n(3, 8),
+                       fn_name="Ctc.ModelCtc.{greedy_steps,decode_beam_nbest} (long inputs, forward-recursion reference)")
+    cases = rest
     # informational (no alarm): how many cases had their beam comparison skipped (ranking gap below the
     # margin), how many ran unpruned (the 'scores are exact' clause applied), and whether arg_max still
     # breaks ties the way the deterministic model does (last maximum) -- a policy, not part of the property
